@@ -351,12 +351,14 @@ func (s *Sched) dispatch(from *Task) {
 			}
 			onlyDaemons := !unfinished
 			if onlyDaemons {
-				// the run is over (daemons may stay blocked)
+				// the run is over (daemons may stay blocked): a daemon that found this out parks like any other
+				// blocked task, so that stop() can release it
 				rawWrite(s.mainW)
 				if from.state == done {
 					return
 				}
-				select {}
+				rawRead(from.rfd)
+				return
 			}
 			if s.OnQuiesce != nil && s.OnQuiesce() {
 				continue
